@@ -337,6 +337,12 @@ func genInputs(kind string, seed int64, n int) []N {
 		add("func f(x) {\nreturn [x].map(f)\n}\nf(1)")
 		add("func f(x) {\nreturn try(func() { return f(x) })\n}\nf(1)")
 		add("func f(x) {\nreturn sorted([x, x], func(a, b) { f(a)\n return true })\n}\nf(1)")
+		// writes into byte slices made from strings of every origin (a literal, a constant of the runtime such as a
+		// type name, a computed string, a map key, an error text): the string is never the storage written to
+		for _, origin := range []string{"type(1)", "type([])", "\"abc\"", "string(12)", "\"ab\" + \"cd\"", "keys({\"kk\": 1})[0]", "type(len)",
+			"string(try(func() { return [][1] }, func(e) { return e }))", "math.__name__", "\"%d\"", "`raw`"} {
+			add("import math\ns := " + origin + "\nb := byte_slice(s)\nb[0] = \"I\"\n[b, s, type(1), type([]), type(len)]")
+		}
 		// arguments for which the Go standard library panics with a value that is not an error (a string)
 		add("import strings\nstrings.repeat(\"ab\", -1)")
 		add("import bytes\nbytes.repeat(byte_slice([1]), -1)")
